@@ -156,6 +156,38 @@ func progAbs(pr *polyProg) []v2.Vec {
 	return out
 }
 
+// previewSafe: every smoothed / chamfered vertex needs at most 0.4 of each adjacent edge, so that the result does not
+// depend on the order in which the vertices are processed (the library smooths in place, vertex by vertex: where two
+// fillets compete for one edge the outcome legitimately depends on which was done first), and nothing is relative,
+// dropped or reversed.
+func previewSafe(pr *polyProg) bool {
+	if pr.Drop || pr.Rev || len(pr.Vs) < 3 {
+		return false
+	}
+	ab := progAbs(pr)
+	n := len(ab)
+	some := false
+	for i, s := range pr.Vs {
+		if s.Rel == 1 {
+			return false
+		}
+		if s.K != "s" && s.K != "c" {
+			continue
+		}
+		some = true
+		a, v, b := ab[(i+n-1)%n], ab[i], ab[(i+1)%n]
+		l0, l1 := dist2(a, v), dist2(b, v)
+		if l0 == 0 || l1 == 0 {
+			return false
+		}
+		g := fillet(a, v, b, float64(s.R))
+		if !(g.d1 <= 0.4*math.Min(l0, l1)) {
+			return false
+		}
+	}
+	return some
+}
+
 func runProg(pr *polyProg) (vs []v2.Vec, panicked bool) {
 	defer func() {
 		if r := recover(); r != nil {
@@ -183,6 +215,19 @@ func runProg(pr *polyProg) (vs []v2.Vec, panicked bool) {
 		}
 	}
 	if pr.Closed {
+		// for half of the programs whose fillets / chamfers do not compete for an edge (see previewSafe) the outline is
+		// converted once while it is still open (a preview) and closed afterwards: the final vertices are those of
+		// the closed outline all the same
+		h := len(pr.Vs)
+		for _, s := range pr.Vs {
+			h = h*31 + s.X*7 + s.Y*3 + s.F
+		}
+		if h < 0 {
+			h = -h
+		}
+		if h%2 == 0 && previewSafe(pr) {
+			p.Vertices()
+		}
 		p.Close()
 	}
 	if pr.Rev {
